@@ -16,7 +16,7 @@ from prompt_toolkit.data_structures import Point, Size
 from prompt_toolkit.filters import FilterOrBool, to_filter
 from prompt_toolkit.formatted_text import AnyFormattedText, to_formatted_text
 from prompt_toolkit.layout.mouse_handlers import MouseHandlers
-from prompt_toolkit.layout.screen import Char, Screen, WritePosition
+from prompt_toolkit.layout.screen import Char, Screen, Transparent, WritePosition
 from prompt_toolkit.output import ColorDepth, Output
 from prompt_toolkit.styles import (
     Attrs,
@@ -217,7 +217,16 @@ def _output_screen_diff(
                 if c in zero_width_escapes_row:
                     write_raw(zero_width_escapes_row[c])
 
-                output_char(new_char)
+                if new_char.char == " " and new_char.style == Transparent:
+                    # A cell that nothing was written to. A full redraw never
+                    # paints such a cell (it equals the default of the empty
+                    # previous screen), so here it has to become blank in the
+                    # default attributes as well, whatever attributes the style
+                    # gives to the default style string.
+                    reset_attributes()
+                    write(" ")
+                else:
+                    output_char(new_char)
                 current_pos = Point(x=current_pos.x + char_width, y=current_pos.y)
 
             c += char_width
